@@ -406,22 +406,22 @@ Qed.
 Theorem parse_static_order_free inherit ms : parse_static_sh sh pf di inherit ms = parse_static pf di inherit ms.
 Proof.
   unfold parse_static_sh, parse_static, parse_static_gen.
-  destruct (open_file "agency.txt" ms); try reflexivity. destruct (parse_agencies hdr rows) as [agencies warns].
-  destruct (open_file "routes.txt" ms); try reflexivity.
-  destruct (open_file "stops.txt" ms); try reflexivity.
+  destruct (open_file "agency.txt" _ ms); try reflexivity. destruct (parse_agencies hdr rows) as [agencies warns].
+  destruct (open_file "routes.txt" _ ms); try reflexivity.
+  destruct (open_file "stops.txt" _ ms); try reflexivity.
   assert (S0 : forall z h r, svc_keys_ok (parse_calendar di z [] h r)) by (intros; apply parse_calendar_keys; split; constructor).
   assert (S1 : forall z m h r, svc_keys_ok m -> services_of_sh sh (parse_calendar_dates di z m h r) = services_of (parse_calendar_dates di z m h r))
     by (intros; apply services_order_free, parse_calendar_dates_keys; assumption).
   assert (S2 : svc_keys_ok []) by (split; constructor).
-  destruct (open_file "transfers.txt" ms); try reflexivity;
-  destruct (open_file "calendar.txt" ms); try reflexivity;
-  destruct (open_file "calendar_dates.txt" ms); try reflexivity;
+  destruct (open_file "transfers.txt" _ ms); try reflexivity;
+  destruct (open_file "calendar.txt" _ ms); try reflexivity;
+  destruct (open_file "calendar_dates.txt" _ ms); try reflexivity;
   rewrite ?S1, ?services_order_free by auto;
-  destruct (open_file "shapes.txt" ms); try reflexivity;
+  destruct (open_file "shapes.txt" _ ms); try reflexivity;
   rewrite ?shapes_order_free;
-  destruct (open_file "trips.txt" ms); try reflexivity;
-  destruct (open_file "frequencies.txt" ms); try reflexivity;
-  destruct (open_file "stop_times.txt" ms); try reflexivity;
+  destruct (open_file "trips.txt" _ ms); try reflexivity;
+  destruct (open_file "frequencies.txt" _ ms); try reflexivity;
+  destruct (open_file "stop_times.txt" _ ms); try reflexivity;
   rewrite stop_times_order_free; reflexivity.
 Qed.
 End StaticOrder.
